@@ -410,6 +410,10 @@ def object_case(c):
             f = np.array([[rng.uniform(-1, 1) for _ in range(nz)] for _ in range(nq)])
         cs = ac.spline_coeff_rows(obj._interpolator, obj._thetaSpline, [f[:, i] for i in range(nz)])
         g = f.copy()
+        if t == 1:
+            # the caller's slice may be a view: a plane of a larger block (same values, other strides)
+            g = np.full((nq, 2, nz), np.nan)[:, 1, :]
+            g[...] = f
         obj.step(g, vIdx, rIdx)
         # exact reference: the formula of the property evaluated with the real spline kernels on the exact
         # rationals of the code's own tables and coefficients (2*pi = the double the kernel uses)
